@@ -90,9 +90,12 @@ def run(f):
         return ('EXC', type(e).__name__)
 
 
-def tokt(tk):
+def tokt(tk, legacy=False):
     arg = tk.arg if isinstance(tk.arg, str) else ('spec', getattr(tk.arg, 'specials_chars', None))
-    return (tk.tok, arg, tk.pos, tk.pos_end, tk.pre_space, getattr(tk, 'post_space', None))
+    # the length: what the legacy API reports (the pylatexenc-2 attribute .len) against the extent of the
+    # pylatexenc-3 token (pos_end - pos, where move_past_token() continues)
+    ln = tk.len if legacy else tk.pos_end - tk.pos
+    return (tk.tok, arg, tk.pos, tk.pos_end, tk.pre_space, getattr(tk, 'post_space', None), ln)
 
 
 def strip_argd(d):
@@ -139,13 +142,17 @@ def compare_walker(s, pos, tol, rng, rec):
             ps = ps.sub_context(**kw)
         t = LatexTokenReader(s, tolerant_parsing=tol)
         t.move_to_pos_chars(pos)
-        return tokt(t.peek_token(ps))
+        tk = t.peek_token(ps)
+        t.move_past_token(tk)
+        r = tokt(tk)
+        # the reader continues at the end of the token's extent
+        return r[:-1] + (t.cur_pos() - tk.pos,)
 
     def old_tok():
         kw = {}
         if psvariant is not None:
             kw['parsing_state'] = caller_state()
-        return tokt(w.get_token(pos, include_brace_chars=ibc, environments=envs, **kw))
+        return tokt(w.get_token(pos, include_brace_chars=ibc, environments=envs, **kw), legacy=True)
     cmp('get_token', (ibc, envs, psvariant), run(old_tok), run(new_tok))
     # ---- braced group
     bt = rng.choice(['{', '[', '(', '<', ('<', '>')])
